@@ -63,6 +63,19 @@ class LogSimulator(Simulator):
         return LogSimulation(scene, perms=self.perms, **kw)
 
 
+def settle():
+    """Collect abandoned generators now (closing them runs Scenic's `finally` clauses, which restore saved global
+    veneer state) and make sure the next compilation / simulation starts from a clean veneer whatever they did.
+    Returns True when the collection left stale state behind."""
+    import gc
+    import scenic.syntax.veneer as veneer
+    gc.collect()
+    dirty = veneer.currentBehavior is not None
+    if dirty:
+        veneer.currentBehavior = None
+    return dirty
+
+
 class Hang(Exception):
     pass
 
@@ -100,6 +113,10 @@ def run_one(scene, run):
         signal.alarm(0)
     out["events"] = [list(e) for e in L.LOG]
     import scenic.syntax.veneer as veneer
+    # finalize the generators the simulation left behind first (finding F26: that can write a stale behavior into
+    # veneer.currentBehavior, right away when the exception that ended the simulation is released, or later)
+    if settle():
+        out["stale_behavior_after_gc"] = True
     out["veneer_clean"] = (veneer.currentSimulation is None and veneer.currentBehavior is None
                            and not veneer.runningScenarios)
     return out
@@ -110,6 +127,7 @@ def main():
     results = []
     for job in payload["jobs"]:
         res = dict(id=job["id"])
+        settle()
         regen = job.get("regen", False)      # requirements on the top-level scenario: the scene is sampled per run
         try:
             L.SIM = None
